@@ -66,6 +66,11 @@ impl Default for CliLimits {
 
 /// Run the real kmertools binary.  `valgrind` wraps it in memcheck (errors -> exit code 97).
 pub fn run_cli(ctx: &Ctx, args: &[String], stdin: Option<&[u8]>, lim: &CliLimits) -> CliOut {
+    run_cli_env(ctx, args, stdin, lim, &[], None)
+}
+
+/// same, with extra environment variables and an optional working directory
+pub fn run_cli_env(ctx: &Ctx, args: &[String], stdin: Option<&[u8]>, lim: &CliLimits, env: &[(&str, &str)], cwd: Option<&str>) -> CliOut {
     let valgrind = ctx.opt("valgrind").is_some();
     let mut cmd = if valgrind {
         let mut c = Command::new("valgrind");
@@ -81,6 +86,12 @@ pub fn run_cli(ctx: &Ctx, args: &[String], stdin: Option<&[u8]>, lim: &CliLimits
     cmd.stderr(Stdio::piped());
     cmd.env("RUST_BACKTRACE", "0");
     cmd.env("NO_COLOR", "1");
+    for (k, v) in env {
+        cmd.env(k, v);
+    }
+    if let Some(d) = cwd {
+        cmd.current_dir(d);
+    }
     let started = Instant::now();
     let mut child = match cmd.spawn() {
         Ok(c) => c,
